@@ -284,6 +284,54 @@ func main() {
 	}
 	exc, _ := ref.FpSqrt(ref.FpInv(big.NewInt(11)))
 	fe = append(fe, mc.Val{Label: "exceptional u = sqrt(1/11)", V: exc}, mc.Val{Label: "exceptional u = -sqrt(1/11)", V: ref.FpNeg(exc)})
+	// u values steered at the intermediates of the map: tv1 = Z*u^2 and tv2 = tv1^2 + tv1 (negated, tested for zero and
+	// inverted by the map) are given stored-limb patterns - low limb all ones / around the low limb of p, half-word
+	// structure, single limbs - by solving u^2 = T/Z, resp. t^2 + t = T and u^2 = t/Z, wherever the square roots exist
+	{
+		rinv := new(big.Int).ModInverse(ref.R256, ref.P)
+		var pats [][4]uint64
+		for _, lo := range []uint64{^uint64(0), 0xfffffffefffffc30, 0xfffffffefffffc2f, 0xfffffffefffffc2e, 1 << 63, 1} {
+			for _, hi := range [][3]uint64{{0, 0, 0}, {^uint64(0), 0, 0}, {1, 2, 3}, {^uint64(0), ^uint64(0), 1<<63 - 1}} {
+				pats = append(pats, [4]uint64{lo, hi[0], hi[1], hi[2]})
+			}
+		}
+		for i, l := range mc.HalfWordLimbPatterns(ref.P) {
+			if i%9 == 0 {
+				pats = append(pats, l)
+			}
+		}
+		zinv := ref.FpInv(ref.SwuZ)
+		half := ref.FpInv(big.NewInt(2))
+		n1, n2 := 0, 0
+		for _, l := range pats {
+			T := new(big.Int)
+			for i := 3; i >= 0; i-- {
+				T.Lsh(T, 64)
+				T.Or(T, new(big.Int).SetUint64(l[i]))
+			}
+			if T.Cmp(ref.P) >= 0 {
+				continue
+			}
+			T = ref.ModP(T.Mul(T, rinv))
+			if u, ok := ref.FpSqrt(ref.FpMul(T, zinv)); ok {
+				fe = append(fe, mc.Val{Label: fmt.Sprintf("steered: tv1 = Z*u^2 stored as %x", l), V: u})
+				n1++
+			}
+			// t^2 + t = T  =>  t = (-1 +- sqrt(1 + 4T)) / 2
+			if sq, ok := ref.FpSqrt(ref.ModP(new(big.Int).Add(big.NewInt(1), new(big.Int).Lsh(T, 2)))); ok {
+				for _, sg := range []*big.Int{sq, ref.FpNeg(sq)} {
+					t := ref.FpMul(ref.ModP(new(big.Int).Sub(sg, big.NewInt(1))), half)
+					if u, ok := ref.FpSqrt(ref.FpMul(t, zinv)); ok {
+						fe = append(fe, mc.Val{Label: fmt.Sprintf("steered: tv2 = tv1^2 + tv1 stored as %x", l), V: u})
+						n2++
+						break
+					}
+				}
+			}
+		}
+		R.Bound("u_steered_at_tv1", n1)
+		R.Bound("u_steered_at_tv2", n2)
+	}
 	for _, xp := range ref.IsoPoles() {
 		_ = xp // poles of the isogeny are x' values, not u values: covered by runIsoPole
 	}
